@@ -623,45 +623,51 @@ Variable dec : string -> option (string * Z * Z).
 Variable t : table.
 Variable terminal : list string.
 
-(* like end_ok, for an entry point: whatever was durable before, the record is now m' *)
-Definition end_top (o : aend) (m' : machine) (res : result) (w' : world) (es : list effect) (n : nat) : Prop :=
-  match o with
-  | AFin s1 => m_cur m' = s1 /\ res = mkResult true ErrNone /\
-               (forall acc, lastp acc es = Some (m_cur m', m_data m'))
-  | ARest s1 k1 cw => m_cur m' = s1 /\ r_done res = false /\ holds tc k1 (m_data m') = true /\
-                      env_ok tc n (k_late k1) (m_data m') w' /\ existsb is_watch_csv es = cw /\
-                      (forall acc, lastp acc es = Some (m_cur m', m_data m'))
-  | ABad => True
-  end.
+Lemma loop_fuel_S : exists f, loop_fuel = S f.
+Proof. exists 63%nat. reflexivity. Qed.
+
+(* an event the current state does not accept: nothing happens *)
+Lemma aloop_rejected s ev k : next_state t s ev = None -> In (ARest s k false) (aloop t loop_fuel s ev k).
+Proof. intros H. destruct loop_fuel_S as [f ->]. cbn [aloop]. rewrite H. left. reflexivity. Qed.
+
+Lemma end_ok_rejected k m w n kl :
+  env_ok tc n kl (m_data m) w -> holds tc k (m_data m) = true -> kl = k_late k ->
+  end_ok tc (ARest (m_cur m) k false) m m (mkResult false ErrRejected) w [] 0.
+Proof.
+  intros E Hh ->. cbn [end_ok]. splits; auto. eapply env_le; [|exact E]. lia.
+Qed.
 
 Lemma ptl_sound s ev k m w m' res w' es n :
   m_cur m = s -> holds tc k (m_data m) = true -> env_ok tc (loop_fuel + n) (k_late k) (m_data m) w ->
   persist_then_loop tc dec t m ev w = ((m', res), w', es) ->
-  exists o, In o (aloop t loop_fuel s ev k) /\ end_top o m' res w' es n.
+  exists o, In o (aloop t loop_fuel s ev k) /\ end_ok tc o m m' res w' es n.
 Proof.
   intros Hs Hh E H. unfold persist_then_loop in H.
   apply bind_inv in H. destruct H as (ok & w1 & e1 & e2 & Hp & H & ->).
   destruct (persist_good tc _ _ _ _ _ _ _ _ Hp E) as (-> & -> & E1). cbn [negb] in H.
   destruct (aloop_sound tc dec t _ _ _ _ _ _ _ _ _ _ n Hs Hh E1 H) as (o & Ho & Hend).
   exists o. split; [exact Ho|].
-  destruct o as [s1|s1 k1 cw|]; cbn [end_ok end_top] in *; auto.
-  - destruct Hend as (A & B & C). splits; auto.
-  - destruct Hend as (A & B & C & D & F & G). splits; auto.
+  destruct o as [s1|s1 k1 cw|]; cbn [end_ok] in *; auto.
 Qed.
 
-Lemma send_event_none_sound s ev k m w m' res w' es n :
+Lemma send_event_none_sound s ev k m w m' res w' es :
   String.eqb ev Ev_Done = false ->
-  m_cur m = s -> holds tc k (m_data m) = true -> env_ok tc (loop_fuel + n) (k_late k) (m_data m) w ->
+  m_cur m = s -> holds tc k (m_data m) = true -> env_ok tc (loop_fuel + 0) (k_late k) (m_data m) w ->
   send_event tc dec t m ev None w = ((m', res), w', es) ->
-  exists o, In o (aloop t loop_fuel s ev k) /\ end_top o m' res w' es n.
+  exists o, In o (aloop t loop_fuel s ev k) /\ end_ok tc o m m' res w' es 0.
 Proof.
-  intros Hd Hs Hh E H. unfold send_event in H. rewrite Hd in H. eapply ptl_sound; eauto.
+  intros Hd Hs Hh E H. unfold send_event in H. rewrite Hd in H.
+  destruct (next_state t (m_cur m) ev) eqn:Hn.
+  - eapply ptl_sound; eauto.
+  - apply ret_inv in H. destruct H as (H & -> & ->). inversion H; subst m' res. rewrite <- Hs.
+    exists (ARest (m_cur m) k false). split; [apply aloop_rejected; exact Hn|].
+    eapply end_ok_rejected; eauto.
 Qed.
 
-Lemma recover_sound s k m w m' res w' es n :
-  m_cur m = s -> holds tc k (m_data m) = true -> env_ok tc (S (loop_fuel + n)) (k_late k) (m_data m) w ->
+Lemma recover_sound s k m w m' res w' es :
+  m_cur m = s -> holds tc k (m_data m) = true -> env_ok tc (S (loop_fuel + 0)) (k_late k) (m_data m) w ->
   recover tc dec t m w = ((m', res), w', es) ->
-  exists o, In o (arecover t s k) /\ end_top o m' res w' es n.
+  exists o, In o (arecover t s k) /\ end_ok tc o m m' res w' es 0.
 Proof.
   intros Hs Hh E H. unfold recover in H. unfold arecover. rewrite <- Hs.
   destruct (lookup_state t (m_cur m)) as [sd|]; [|exists ABad; split; [left; reflexivity|exact Logic.I]].
@@ -695,24 +701,24 @@ Proof.
   { intros acc. rewrite lastp_app, (lastp_no_persist _ _ Hnp). reflexivity. }
   destruct (String.eqb ev' Ev_NoOp).
   { apply ret_inv in H. destruct H as (Hr & -> & ->). inversion Hr; subst m' res; clear Hr.
-    exists (ARest (m_cur m) k' cw). split; [apply Hin; left; reflexivity|]. cbn [end_top]. rewrite app_nil_r.
+    exists (ARest (m_cur m) k' cw). split; [apply Hin; left; reflexivity|]. cbn [end_ok]. rewrite app_nil_r.
     splits; auto.
     - eapply env_le; [|exact E3]. lia.
     - rewrite existsb_app. cbn. rewrite Hcw. apply orb_false_r. }
   destruct cw.
   { exists ABad. split; [apply Hin; left; reflexivity|exact Logic.I]. }
-  unfold send_event in H.
-  destruct (String.eqb ev' Ev_Done).
-  { apply ret_inv in H. destruct H as (Hr & -> & ->). inversion Hr; subst m' res; clear Hr.
-    exists (AFin (m_cur m)). split; [apply Hin; left; reflexivity|]. cbn [end_top]. rewrite app_nil_r. auto. }
-  assert (E4 : env_ok tc (loop_fuel + n) (k_late k') (m_data m1) w2) by exact E3.
-  destruct (ptl_sound (m_cur m) ev' k' m1 w2 m' res w' e4 n eq_refl Hk' E4 H) as (o & Ho & Hend).
+  assert (E4 : env_ok tc (loop_fuel + 0) (k_late k') (m_data m1) w2) by exact E3.
+  destruct (String.eqb ev' Ev_Done) eqn:Hdone.
+  { unfold send_event in H. rewrite Hdone in H.
+    apply ret_inv in H. destruct H as (Hr & -> & ->). inversion Hr; subst m' res; clear Hr.
+    exists (AFin (m_cur m)). split; [apply Hin; left; reflexivity|]. cbn [end_ok]. rewrite app_nil_r. auto. }
+  destruct (send_event_none_sound (m_cur m) ev' k' m1 w2 m' res w' e4 Hdone eq_refl Hk' E4 H) as (o & Ho & Hend).
   exists o. split; [apply Hin; exact Ho|].
-  destruct o as [s1|s1 k1 cw1|]; cbn [end_top] in *; auto.
-  - destruct Hend as (A & B & C). splits; auto. intros acc. rewrite app_assoc, lastp_app. apply C.
+  destruct o as [s1|s1 k1 cw1|]; cbn [end_ok] in *; auto.
+  - destruct Hend as (A & B & C). splits; auto. rewrite app_assoc, lastp_app, L1. exact C.
   - destruct Hend as (A & B & C & D & F & G). splits; auto.
     + rewrite !existsb_app, Hcw. cbn. exact F.
-    + intros acc. rewrite app_assoc, lastp_app. apply G.
+    + rewrite app_assoc, lastp_app, L1. exact G.
 Qed.
 
 Lemma holds_with_late b k d : holds tc (with_late b k) d = holds tc k d.
@@ -722,11 +728,30 @@ Lemma env_of_worlds n d w kl :
   good_world n w = true -> (kl = true -> late_world tc d w = true) -> env_ok tc n kl d w.
 Proof. intros G L. split; auto. Qed.
 
-Lemma restore_of_lastp (m' : machine) es :
-  lastp None es = Some (m_cur m', m_data m') ->
-  exists m1, restore m' es = Some m1 /\ m_cur m1 = m_cur m' /\ m_data m1 = m_data m'.
+(* a list of effects either has no successful store write or determines the durable record *)
+Lemma lastp_cons acc e r : lastp acc (e :: r) = lastp (lp_acc acc e) r.
+Proof. reflexivity. Qed.
+
+Lemma lastp_cases es : (forall acc, lastp acc es = acc) \/ (forall acc acc', lastp acc es = lastp acc' es).
 Proof.
-  intros H. unfold restore. rewrite last_persist_lastp, H. eexists. split; [reflexivity|]. cbn. auto.
+  induction es as [|e r IH]; [left; reflexivity|].
+  destruct IH as [IH|IH].
+  - destruct e; try (left; intros acc; rewrite lastp_cons; cbn [lp_acc]; apply IH).
+    destruct ok.
+    + right. intros acc acc'. rewrite !lastp_cons. reflexivity.
+    + left. intros acc. rewrite lastp_cons. cbn [lp_acc]. apply IH.
+  - right. intros acc acc'. rewrite !lastp_cons. apply IH.
+Qed.
+
+(* the stored record after a round that started from the stored record m0 *)
+Lemma next_record_spec (m0 m' : machine) es :
+  lastp (Some (m_cur m0, m_data m0)) es = Some (m_cur m', m_data m') ->
+  m_cur (next_record m0 m' es) = m_cur m' /\ m_data (next_record m0 m' es) = m_data m'.
+Proof.
+  intros H. unfold next_record, restore. rewrite last_persist_lastp.
+  destruct (lastp_cases es) as [Hc|Hc].
+  - rewrite Hc. rewrite Hc in H. inversion H. auto.
+  - rewrite (Hc None (Some (m_cur m0, m_data m0))), H. cbn. auto.
 Qed.
 
 Theorem asettle_sound n : forall m k,
@@ -743,9 +768,9 @@ Proof.
   apply ret_inv in Hs1. destruct Hs1 as (-> & _ & ->). rewrite app_nil_r. cbn [o_removed o_machine].
   assert (E : env_ok tc (S (loop_fuel + 0)) (k_late k) (m_data m) w1).
   { apply env_of_worlds; [eapply good_world_le; [|exact G1]; unfold c16_budget; lia|intros _; exact L1]. }
-  destruct (recover_sound (m_cur m) k m w1 m' res wx e1 0 eq_refl Hh E Hrec) as (o & Ho & Hend).
+  destruct (recover_sound (m_cur m) k m w1 m' res wx e1 eq_refl Hh E Hrec) as (o & Ho & Hend).
   cbn [asettle] in Ha. rewrite forallb_forall in Ha. specialize (Ha o Ho).
-  destruct o as [s1|s1 k1 cw|]; cbn [end_top] in Hend; [| |discriminate Ha].
+  destruct o as [s1|s1 k1 cw|]; cbn [end_ok] in Hend; [| |discriminate Ha].
   - destruct Hend as (A & -> & C). left. cbn. split; [reflexivity|]. rewrite A. exact Ha.
   - destruct Hend as (A & B & C & D & F & G). right. rewrite B, andb_false_r. split; [reflexivity|].
     rewrite F. destruct cw.
@@ -756,20 +781,20 @@ Proof.
       apply ret_inv in Hs2. destruct Hs2 as (-> & _ & ->). rewrite app_nil_r. cbn [o_removed o_machine].
       assert (E2 : env_ok tc (loop_fuel + 0) (k_late (with_late false k1)) (m_data m') w2).
       { apply env_of_worlds; [eapply good_world_le; [|exact G2]; unfold c16_budget; lia|discriminate]. }
-      destruct (send_event_none_sound s1 Ev_CsvPassed (with_late false k1) m' w2 m2 res2 wy e3 0 eq_refl A C E2 Hse)
+      destruct (send_event_none_sound s1 Ev_CsvPassed (with_late false k1) m' w2 m2 res2 wy e3 eq_refl A C E2 Hse)
         as (o2 & Ho2 & Hend2).
       rewrite forallb_forall in Ha. specialize (Ha o2 Ho2).
-      destruct o2 as [s2|s2 k2 cw2|]; cbn [end_top] in Hend2; [| |discriminate Ha].
+      destruct o2 as [s2|s2 k2 cw2|]; cbn [end_ok] in Hend2; [| |discriminate Ha].
       * destruct Hend2 as (A2 & -> & C2). left. cbn. split; [reflexivity|]. rewrite A2. exact Ha.
       * destruct Hend2 as (A2 & B2 & C2 & D2 & F2 & G2'). right. rewrite B2, andb_false_r. split; [reflexivity|].
-        destruct (restore_of_lastp m2 (e1 ++ e3)) as (m3 & R & Rc & Rd).
-        { rewrite lastp_app. apply G2'. }
-        unfold next_record. rewrite R. apply (IH m3 (with_late true k2)).
+        destruct (next_record_spec m m2 (e1 ++ e3)) as (Rc & Rd).
+        { rewrite lastp_app, G. exact G2'. }
+        apply (IH _ (with_late true k2)).
         -- rewrite Rc, A2. exact Ha.
         -- reflexivity.
         -- rewrite Rd, holds_with_late. exact C2.
-    + destruct (restore_of_lastp m' e1 (G None)) as (m3 & R & Rc & Rd).
-      unfold next_record. rewrite R. apply (IH m3 (with_late true k1)).
+    + destruct (next_record_spec m m' e1 G) as (Rc & Rd).
+      apply (IH _ (with_late true k1)).
       * rewrite Rc, A. exact Ha.
       * reflexivity.
       * rewrite Rd, holds_with_late. exact C.
